@@ -9,7 +9,7 @@ use proptest::prelude::*;
 use serde::{Deserialize, Serialize};
 use serde_json::json;
 
-pub const RULE: &str = "positions: all generator sources incl. the multi-queen / under-promotion themes (game phase up to 88) and walks from them; for each position P and its mirror twin M (ranks flipped, colours, side, rights and e.p. target swapped, built by the reference model): eval(P) == eval(M), no panic, eval is not a mate score, and with mg := eval with the phase counter forced to 24 and eg := forced to 0, min(mg,eg) <= eval(P) <= max(mg,eg). Every walk is also played on one engine Game (make_move) and the evaluation of each position reached by play is held to the same demands (band from a fresh copy, mirror twin built from scratch). Blend triples: PhasedEval::new(mg,eg).for_phase(p) lies between mg and eg for mg,eg in [-20000,20000], p in 0..=88. Non-trivial position = phase above 24 or asymmetric pawn structure / king placement; distinct by identity.";
+pub const RULE: &str = "positions: all generator sources incl. the multi-queen / under-promotion themes (game phase up to 88) and walks from them; for each position P and its mirror twin M (ranks flipped, colours, side, rights and e.p. target swapped, built by the reference model): eval(P) == eval(M), no panic, eval is not a mate score, and with mg := eval with the phase counter forced to 24 and eg := forced to 0, min(mg,eg) <= eval(P) <= max(mg,eg). Every walk is also played on one engine Game (make_move) and the evaluation of each position reached by play is held to the same demands (band from a fresh copy, mirror twin built from scratch). Key collisions ('positions_whose_keys_agree_on_most_bits'): pairs of different legal positions constructed so that their keys agree on the upper 48 / lower 48 / upper 32 + lower 20 / ... bits (Gaussian elimination over the per-(man, square) key words, read off zobrist::hash) are evaluated one right after the other; each must get the value of its own mirror twin and lie in its own band. Blend triples: PhasedEval::new(mg,eg).for_phase(p) lies between mg and eg for mg,eg in [-20000,20000], p in 0..=88. Non-trivial position = phase above 24 or asymmetric pawn structure / king placement; distinct by identity.";
 
 #[derive(Serialize, Deserialize, Clone, Debug)]
 pub struct Triple {
@@ -107,7 +107,79 @@ fn check_played(g: &crate::chess::game::Game, p: &Pos, st: &mut Stats) -> Result
     Ok(())
 }
 
+#[derive(Serialize, Deserialize, Clone, Debug)]
+pub enum PairCase {
+    Tape(Vec<u16>),
+    /// two FENs evaluated one right after the other
+    Explicit { first: String, second: String },
+}
+
+/// Two different legal positions whose keys agree on most bits (see collide.rs) are evaluated one
+/// right after the other: each must still get its own value (= the value of its mirror twin, inside
+/// its own middlegame / endgame band).
+fn check_pair(c: &PairCase, st: &mut Stats) -> Result<(), Fail> {
+    let (a, b, label): (Pos, Pos, &'static str) = match c {
+        PairCase::Tape(data) => {
+            let mut t = Tape::new(data);
+            let mi = t.pick(super::collide::MASKS.len());
+            let mut base = super::collide::kings_base(&mut t);
+            // a few men common to both positions
+            for _ in 0..t.pick(4) {
+                let s = t.pick(64);
+                let pc = crate::refchess::Pc::new(t.pick(2) == 0, [Kind::Q, Kind::R, Kind::B, Kind::N][t.pick(4)]);
+                if base.board[s].is_none() {
+                    base.board[s] = Some(pc);
+                    if base.validate().is_err() || base.attacked(base.king_sq(base.white_to_move).unwrap(), !base.white_to_move) {
+                        base.board[s] = None;
+                    }
+                }
+            }
+            let Some(pair) = super::collide::colliding_pair(&mut t, &base, None, mi) else {
+                st.discard();
+                return Ok(());
+            };
+            st.class_n("men_by_which_the_two_positions_differ", pair.differing as u64);
+            if t.pick(2) == 0 {
+                (pair.a, pair.b, pair.mask_name)
+            } else {
+                (pair.b, pair.a, pair.mask_name)
+            }
+        }
+        PairCase::Explicit { first, second } => match (Pos::from_fen(first), Pos::from_fen(second)) {
+            (Ok(a), Ok(b)) if a.validate().is_ok() && b.validate().is_ok() => (a, b, "explicit"),
+            _ => return Ok(()),
+        },
+    };
+    st.eval();
+    st.class(&format!("keys_agree_on:{label}"));
+    st.nontrivial(&(a.identity(), b.identity()));
+    let ex = || json!({"Explicit": {"first": a.to_fen(), "second": b.to_fen()}});
+    if st.want_nontrivial_sample() {
+        let (ka, kb) = (to_game(&a).zobrist.0, to_game(&b).zobrist.0);
+        st.nontrivial_sample(json!({"first": a.to_fen(), "second": b.to_fen(), "key_first": format!("{ka:#018x}"), "key_second": format!("{kb:#018x}"), "keys_agree_on": label}));
+    }
+    let (ga, gb, gam, gbm) = (to_game(&a), to_game(&b), to_game(&a.mirror()), to_game(&b.mirror()));
+    let r = catch(|| {
+        let ea = eval(&ga);
+        let eb = eval(&gb); // nothing evaluated in between
+        let ebm = eval(&gbm);
+        let eam = eval(&gam);
+        (ea, eb, eam, ebm)
+    });
+    let (ea, eb, eam, ebm) = r.map_err(|pm| Fail::new(&format!("eval_panic:{}", panic_signature(&pm)), format!("eval panicked on {} / {}: {pm}", a.to_fen(), b.to_fen())).explicit(ex()))?;
+    if eb != ebm {
+        return Err(Fail::new("eval_depends_on_what_was_evaluated_before", format!("eval({}) = {} when evaluated right after {} (eval {}), but its mirror twin evaluates to {}", b.to_fen(), eb.0, a.to_fen(), ea.0, ebm.0)).explicit(ex()));
+    }
+    if ea != eam {
+        return Err(Fail::new("eval_depends_on_what_was_evaluated_before", format!("eval({}) = {} but its mirror twin, evaluated after {}, gives {}", a.to_fen(), ea.0, b.to_fen(), eam.0)).explicit(ex()));
+    }
+    check_position(&a, st).map_err(|f| f.explicit(ex()))?;
+    check_position(&b, st).map_err(|f| f.explicit(ex()))
+}
+
 pub fn run(run: &mut Run) -> &'static str {
+    let cases = run.tier.pick(20_000, 400_000);
+    run.proptest_part("positions_whose_keys_agree_on_most_bits", RULE, tape(80..200).prop_map(PairCase::Tape), cases, check_pair);
     let cases = run.tier.pick(300_000, 6_000_000);
     run.proptest_part("positions", RULE, pos_case(4..160), cases, |c: &PosCase, st: &mut Stats| {
         // alternate between the general mix and the heavy-material mix
